@@ -29,7 +29,10 @@ RULE = ('Exhaustive enumeration, no sampling: (a) every route of the API x '
         'never a 5xx, always the applied version and Vary; (e) generated '
         'allocation-candidate and provider-listing queries: accepted (200) '
         'at the first microversion whose documented syntax can express them '
-        'and at 1.39, refused (400) at the version just below. '
+        'and at 1.39, refused (400) at the version just below; for the '
+        'accepted (unlimited) candidate queries provider_summaries holds '
+        'exactly the providers of the allocation requests below 1.29 and '
+        'exactly the members of their trees from 1.29. '
         'Non-trivial = a matrix cell whose expected answer is 404/405/406, or '
         'a feature probe at one of its boundary versions; distinct = distinct '
         '(route, method, version) or (feature, version).')
@@ -515,6 +518,18 @@ FEATURES = [
       lambda v: ('PUT', '/resource_providers/' + P4,
                  {'name': 'p4', 'parent_provider_uuid': P3}), st(200),
       base=14),
+    F('generation in the aggregates body of a provider still at generation 0',
+      19, lambda v: ('GET', '/resource_providers/%s/aggregates' % P4, None),
+      lambda r: r.status == 200 and
+      r.json.get('resource_provider_generation') == 0, base=1),
+    F('generation in the traits body of a provider still at generation 0', 6,
+      lambda v: ('GET', '/resource_providers/%s/traits' % P4, None),
+      lambda r: r.status == 200 and
+      r.json.get('resource_provider_generation') == 0),
+    F('generation in the inventories body of a provider at generation 0', 0,
+      lambda v: ('GET', '/resource_providers/%s/inventories' % P4, None),
+      lambda r: r.status == 200 and
+      r.json.get('resource_provider_generation') == 0),
     F('un-parenting via PUT provider', 37,
       lambda v: ('PUT', '/resource_providers/' + P2,
                  {'name': 'p2', 'parent_provider_uuid': None}), st(200),
@@ -601,7 +616,7 @@ def generated_header_rule(ctx, svc, record):
     import hypothesis
     from hypothesis import HealthCheck, Phase, given, settings, \
         strategies as hst
-    from pv import bgen
+    from pv import bgen, engb
     from pv.dump import dump
     from pv.props import c15
     base = machine.base_snapshot(svc)
@@ -638,6 +653,29 @@ def generated_header_rule(ctx, svc, record):
                 stats.count('query gate: first version 1.%d' % mv)
                 if ver == mv - 1:
                     stats.nontriv(stable_hash([path, qs, ver]))
+                if resp.status == 200 and want == 200 and \
+                        path.startswith('/allocation_candidates'):
+                    # documented membership of provider_summaries on both
+                    # sides of 1.29 (the request carries no limit)
+                    for vv in sorted({ver, 28 if mv <= 28 else ver, 29}):
+                        if vv < mv:
+                            continue
+                        svc.restore(snap)
+                        r2 = svc.request('GET', path + qs,
+                                         version='1.%d' % vv)
+                        stats.evaluations += 1
+                        if r2.status != 200:
+                            continue
+                        try:
+                            engb.summary_membership(
+                                d, r2.json, vv,
+                                {'request': 'GET %s%s @1.%d' % (path, qs,
+                                                                 vv)})
+                        except Violation as v:
+                            record(v, {'kind': 'gate', 'state': desc,
+                                       'path': path + qs, 'version': vv,
+                                       'want': 200, 'first': mv,
+                                       'membership': True})
                 if resp.status != want:
                     record(Violation(
                         {'clause': 'query-form-%s' % (
@@ -845,6 +883,15 @@ def replay(ctx, data):
         bgen.build_state(svc, data['state'], base)
         resp = svc.request('GET', data['path'],
                            version='1.%d' % data['version'])
+        if data.get('membership') and resp.status == 200:
+            from pv import engb
+            from pv.dump import dump
+            try:
+                engb.summary_membership(dump(svc.dbpath), resp.json,
+                                        data['version'], {})
+            except Violation as v:
+                return [{'signature': v.signature, 'detail': v.detail}]
+            return []
         if resp.status != data['want']:
             return [{'signature': {'clause': 'query-form-gate',
                                    'first_version': data['first']},
